@@ -245,6 +245,20 @@ def gen_graph(rng, size, feat):
             w = p.add("for_each", _text("for_each", len(p.nodes)), None)
             p.edges.append((wsrc, None, w, None))
             p.nodes[w]["refs"] = [("#{0} mut n%d" if rng.below(3) == 0 else "#{0} n%d") % h]
+    if rng.below(100) < feat.get("consumer_first", 0):
+        src = p.add("source_iter", "source_iter(0..%d)" % (len(p.nodes) + 2), None)
+        h = p.add(rng.choice(["handoff", "optional", "singleton"]), None, None)
+        p.nodes[h]["text"] = p.nodes[h]["op"] + "()"
+        p.edges.append((src, None, h, None))
+        c = p.add(rng.choice(["for_each", "null"]), _text(rng.choice(["for_each"]), len(p.nodes)), None)
+        if p.nodes[c]["op"] == "null":
+            p.nodes[c]["text"] = "null()"
+        p.edges.append((h, None, c, None))
+        for _ in range(rng.range(2, 3)):
+            bs = p.add("source_iter", "source_iter(0..%d)" % (len(p.nodes) + 2), None)
+            b = p.add("for_each", _text("for_each", len(p.nodes)), None)
+            p.edges.append((bs, None, b, None))
+            p.nodes[b]["refs"] = ["#n%d" % h]
     if planted_access:
         up, down = planted_access
         src = p.add("source_iter", "source_iter(0..%d)" % (len(p.nodes) + 2), None)
@@ -368,10 +382,10 @@ def render(rng, p, inline=60):
 FEATS = [
     {"name": "basic", "defer": 8, "back": 0, "refs": 0, "loops": 0},
     {"name": "cycles", "defer": 8, "back": 80, "back_defer": 45, "refs": 0, "loops": 0, "close": 45},
-    {"name": "refs", "defer": 8, "back": 30, "back_defer": 60, "refs": 90, "loops": 0, "bad_ref": 3, "acc": 25},
+    {"name": "refs", "defer": 8, "back": 30, "back_defer": 60, "refs": 90, "loops": 0, "bad_ref": 3, "acc": 25, "consumer_first": 30},
     {"name": "access", "defer": 6, "back": 15, "back_defer": 60, "refs": 20, "loops": 0, "acc": 100, "multi": 40},
     {"name": "loops", "defer": 10, "back": 40, "back_defer": 75, "refs": 0, "loops": 90},
-    {"name": "all", "defer": 10, "back": 50, "back_defer": 55, "refs": 60, "loops": 60, "bad_ref": 2, "acc": 15, "multi": 15},
+    {"name": "all", "defer": 10, "back": 50, "back_defer": 55, "refs": 60, "loops": 60, "bad_ref": 2, "acc": 15, "multi": 15, "consumer_first": 15},
 ]
 
 HAND = [
@@ -392,6 +406,10 @@ HAND = [
     "s = source_iter(0..5) -> map(|x| { let _ = #h; x }) -> h; h = singleton();",
     "h = source_iter(0..1) -> optional(); source_iter(0..5) -> map(|x| { let _ = #{1} mut h; x }) -> null(); source_iter(0..2) -> for_each(|x| { let _ = #{0} h; });",
     "source_iter(0..5) -> handoff() -> handoff() -> null();",
+    # a referenced handoff whose PIPE CONSUMER is declared before >= 2 shared borrowers of the default group
+    "s = source_iter(0..3) -> tee(); h = s -> handoff(); h -> for_each(|x| println!(\"{:?}\", x)); s -> map(|x| { let _ = #h; x }) -> null(); s -> filter(|x| { let _ = #h; true }) -> null();",
+    "h = source_iter(0..2) -> optional(); h -> null(); source_iter(0..3) -> for_each(|x| { let _ = #h; }); source_iter(0..4) -> for_each(|x| { let _ = #h; }); source_iter(0..5) -> inspect(|x| { let _ = #h; }) -> null();",
+    "h = source_iter(0..2) -> fold(|| 0, |a, x| *a += x) -> singleton(); h -> for_each(drop); t = source_iter(0..3) -> tee(); t -> map(|x| { let _ = #h; x }) -> null(); t -> map(|x| { let _ = #h; x + 1 }) -> null();",
     # two referenced singletons, one later-group reader written before the two earlier-group writers
     "s1 = source_iter(0..1) -> singleton(); s2 = source_iter(0..1) -> singleton(); source_iter(0..3) -> map(|x| { let _ = #{1} s1; let _ = #{1} s2; x }) -> null(); source_iter(0..4) -> for_each(|x| { let _ = #{0} s1; }); source_iter(0..5) -> for_each(|x| { let _ = #{0} s2; });",
     "s1 = source_iter(0..1) -> optional(); s2 = source_iter(0..1) -> singleton(); s3 = source_iter(0..1) -> handoff(); r = source_iter(0..3) -> inspect(|x| { let _ = #{2} s1; let _ = #{1} s2; let _ = #{1} s3; }) -> null(); source_iter(0..4) -> for_each(|x| { let _ = #{0} mut s3; }); source_iter(0..5) -> for_each(|x| { let _ = #{0} s2; }); source_iter(0..6) -> for_each(|x| { let _ = #{1} s1; let _ = #{0} s2; });",
